@@ -149,9 +149,16 @@ def check_records(recorder, rng, max_tids=64, replay_allocs=False):
       plan.append(("ctl", ri))
     # scalar tokens
     toks, skip = [], None
+    comp = {}
     for n, t in ks["scalars"]:
       if n in r["before"] and not isinstance(r["before"][n], np.ndarray):
         v = r["before"][n]
+        if hasattr(v, "__len__") and not isinstance(v, (str, bytes)):
+          k = comp.get(n, 0)
+          comp[n] = k + 1
+          flat = np.asarray(v, dtype=np.float64).reshape(-1)
+          v = float(flat[k])
+          t = "F"
       elif n.startswith("cl_") and n[3:] in r["closure"]:
         v = r["closure"][n[3:]]
       elif n.startswith("st_"):
@@ -195,8 +202,8 @@ def check_records(recorder, rng, max_tids=64, replay_allocs=False):
       continue
     if r.get("has_alloc"):
       # allocation results are inputs of the model task: they are reconstructed by replaying the launch serially (pass 2)
-      if ntot > 512:
-        r["skip"] = "allocating kernel with too many tasks to replay serially"
+      if ntot > 96:
+        r["skip"] = "allocating kernel with too many tasks to replay serially in this tier"
         continue
       r["alloc_toks"] = toks
       r["all"] = True
@@ -382,6 +389,7 @@ def replay_alloc(recorder, ri):
   sig = recorder.sigs[r["kernel"]]
   ks = sig["kernel"]
   alloc_names = [n for n, t in ks["scalars"] if n.startswith("alloc")]
+  site_arr = {a: arr for a, arr in sig.get("alloc_sites", [])}
   head = ["clr"] + [encode_array(pn, r["before"][pn], t) for pn, t in ks["arrays"]]
   allocs = {tuple(t): {a: 0 for a in alloc_names} for t in r["tids"]}
   final_lines = None
@@ -396,7 +404,7 @@ def replay_alloc(recorder, ri):
     for tid, line in zip(r["tids"], out):
       cur = {}
       if line.startswith("W"):
-        k = 0
+        used = set()
         for arr, idx, kd, vk, vv in parse_writes(line):
           if kd in ("alloc", "aadd", "asub") and vk == "i":
             key = (arr, idx)
@@ -405,9 +413,13 @@ def replay_alloc(recorder, ri):
                 counters[key] = int(np.asarray(r["before"][arr][idx]))
               except Exception:
                 counters[key] = 0
-            if kd == "alloc" and k < len(alloc_names):
-              cur[alloc_names[k]] = counters[key]
-              k += 1
+            if kd == "alloc":
+              # the allocation site: first not-yet-used alloc parameter whose array matches
+              for a in alloc_names:
+                if a not in used and site_arr.get(a, arr) == arr:
+                  cur[a] = counters[key]
+                  used.add(a)
+                  break
             counters[key] += int(vv) if kd != "asub" else -int(vv)
       new[tuple(tid)] = {a: cur.get(a, 0) for a in alloc_names}
     final_lines = lines
